@@ -9,6 +9,7 @@ use crate::{
 };
 
 use image::RgbaImage;
+use std::collections::BTreeMap;
 use std::fmt;
 use std::io::Read;
 use std::sync::Arc;
@@ -82,10 +83,12 @@ impl<'a> Cel<'a> {
     }
 }
 
-/// Organizes all Cels into a 2d array.
+/// Organizes all Cels by frame and layer.
 pub(crate) struct CelsData<P> {
-    // Mapping: frame_id -> layer_id -> Option<RawCel>
-    data: Vec<Vec<Option<RawCel<P>>>>,
+    // Mapping: frame_id -> (layer_id -> RawCel). The rows are sparse: a cel
+    // chunk names its layer by a file-supplied index, and a dense row would
+    // have to grow to that index whether or not such a layer exists.
+    data: Vec<BTreeMap<u16, RawCel<P>>>,
     num_frames: u32,
 }
 #[derive(Debug, Clone, Copy)]
@@ -107,16 +110,14 @@ where
     fn fmt(&self, f: &mut fmt::Formatter<'_>) -> fmt::Result {
         let mut d = f.debug_map();
         for frame in 0..self.data.len() {
-            for (layer, cel) in self.data[frame].iter().enumerate() {
-                if let Some(ref cel) = cel {
-                    d.entry(
-                        &CelId {
-                            frame: frame as u16,
-                            layer: layer as u16,
-                        },
-                        cel,
-                    );
-                }
+            for (layer, cel) in self.data[frame].iter() {
+                d.entry(
+                    &CelId {
+                        frame: frame as u16,
+                        layer: *layer,
+                    },
+                    cel,
+                );
             }
         }
         d.finish()
@@ -126,8 +127,8 @@ where
 impl<P> CelsData<P> {
     pub(crate) fn new(num_frames: u32) -> Self {
         let mut data = Vec::with_capacity(num_frames as usize);
-        // Initialize with one layer (outer Vec) and zero RawCel (inner Vec).
-        data.resize_with(num_frames as usize, || vec![None]);
+        // One (empty) row per frame.
+        data.resize_with(num_frames as usize, || BTreeMap::new());
         CelsData { data, num_frames }
     }
 
@@ -145,50 +146,37 @@ impl<P> CelsData<P> {
         self.check_valid_frame_id(frame_id)?;
 
         let layer_id = cel.data.layer_index;
-        let min_layers = layer_id as u32 + 1;
         let layers = &mut self.data[frame_id as usize];
-        if layers.len() < min_layers as usize {
-            layers.resize_with(min_layers as usize, || None);
-        }
-        if layers[layer_id as usize].is_some() {
+        if layers.contains_key(&layer_id) {
             return Err(AsepriteParseError::InvalidInput(format!(
                 "Multiple Cels for frame {}, layer {}",
                 frame_id, layer_id
             )));
         }
-        layers[layer_id as usize] = Some(cel);
+        layers.insert(layer_id, cel);
 
         Ok(())
     }
 
     pub(crate) fn frame_cels(&self, frame_id: u16) -> impl Iterator<Item = (u32, &RawCel<P>)> {
+        // A BTreeMap iterates in key order, i.e., from the bottom layer up.
         self.data[frame_id as usize]
             .iter()
-            .enumerate()
-            .filter_map(|(layer_id, cel)| cel.as_ref().map(|c| (layer_id as u32, c)))
+            .map(|(layer_id, cel)| (*layer_id as u32, cel))
     }
 
-    // Frame ID must be valid. If Layer ID is out of bounds always returns an
-    // empty Vec.
+    // Frame ID must be valid. Returns `None` if there is no cel for the layer.
     pub(crate) fn cel(&self, cel_id: CelId) -> Option<&RawCel<P>> {
         let CelId { frame, layer } = cel_id;
         let layers = &self.data[frame as usize];
-        if (layer as usize) >= layers.len() {
-            None
-        } else {
-            layers[layer as usize].as_ref()
-        }
+        layers.get(&layer)
     }
 
     pub(crate) fn cel_mut(&mut self, cel_id: &CelId) -> Option<&mut RawCel<P>> {
         let frame = cel_id.frame;
         let layer = cel_id.layer;
         let layers = &mut self.data[frame as usize];
-        if (layer as usize) >= layers.len() {
-            None
-        } else {
-            layers[layer as usize].as_mut()
-        }
+        layers.get_mut(&layer)
     }
 }
 
@@ -294,31 +282,27 @@ impl CelsData<RawPixels> {
 
         // Validate and transform each cel. Consumes input arrays.
         for (frame, cels_by_layer) in self.data.into_iter().enumerate() {
-            result.data.push(Vec::with_capacity(cels_by_layer.len()));
-            for (layer, opt_cel) in cels_by_layer.into_iter().enumerate() {
-                let cel = if let Some(cel) = opt_cel {
-                    let cel_id = CelId {
-                        frame: frame as u16,
-                        layer: layer as u16,
-                    };
-                    if layer >= num_layers {
-                        return Err(AsepriteParseError::InvalidInput(format!(
-                            "Cel {} references a layer that does not exist",
-                            cel_id
-                        )));
-                    }
-                    Some(cel.validate(
-                        cel_id,
-                        layers,
-                        tilesets,
-                        pixel_format,
-                        palette.clone(),
-                        &validate_ref,
-                    )?)
-                } else {
-                    None
+            result.data.push(BTreeMap::new());
+            for (layer, cel) in cels_by_layer.into_iter() {
+                let cel_id = CelId {
+                    frame: frame as u16,
+                    layer,
                 };
-                result.data[frame].push(cel);
+                if (layer as usize) >= num_layers {
+                    return Err(AsepriteParseError::InvalidInput(format!(
+                        "Cel {} references a layer that does not exist",
+                        cel_id
+                    )));
+                }
+                let cel = cel.validate(
+                    cel_id,
+                    layers,
+                    tilesets,
+                    pixel_format,
+                    palette.clone(),
+                    &validate_ref,
+                )?;
+                result.data[frame].insert(layer, cel);
             }
         }
 
